@@ -29,6 +29,20 @@ theorem sameP_storeSeq (A : Option Assets) (t : Table) : ∀ j, SameP A (storeSe
   | 0 => SameP.refl _
   | j + 1 => (sameP_storeSeq A t j).trans (sameP_storeAfter _ _)
 
+theorem sameP_commitExternal (As : Assets) (vs : List Val) : SameP (some As) (some (commitExternal As vs)) := by
+  unfold commitExternal
+  split <;> simp [SameP]
+
+/-- a commit with more or fewer states than persistent groups is refused: the store is unchanged -/
+theorem commitExternal_refused (As : Assets) (vs : List Val) (h : vs.length ≠ As.persistent.length) :
+    commitExternal As vs = As := by
+  simp [commitExternal, Assets.commit, h]
+
+/-- a commit with one state per persistent group replaces the previous generation -/
+theorem commitExternal_accepted (As : Assets) (vs : List Val) (h : vs.length = As.persistent.length) :
+    commitExternal As vs = { As with prev := vs.map undump } := by
+  simp [commitExternal, Assets.commit, h]
+
 /-- `Table.add` consults `assets.__contains__` and `assets.offset` only -/
 theorem add_congr (g : Segment) {A B : Option Assets} (h : SameP A B) : add g A = add g B := by
   cases A with
